@@ -407,12 +407,20 @@ class Spec(core.PropSpec):
                                 views[r].dispose()
                                 results[(r, k)] = ("ok", None)
                                 LOG.append(["ret", f"r{r}", k, None])
-                        except InjectedLoadError:
-                            results[(r, k)] = ("ioerr", None)
-                            LOG.append(["ioerr", f"r{r}", k])
                         except Exception as e:
-                            results[(r, k)] = ("exc", e)
-                            LOG.append(["exc", f"r{r}", k, type(e).__name__])
+                            own = []
+                            for ev in reversed(LOG):
+                                if ev[1:2] == [f"r{r}"]:
+                                    own.append(ev[0])
+                                    if ev[0] == "inv":
+                                        break
+                            if core.caused_by(e, InjectedLoadError) and "load-failed" in own:
+                                # the load of THIS access failed (a later access raising a remembered error is not this case)
+                                results[(r, k)] = ("ioerr", None)
+                                LOG.append(["ioerr", f"r{r}", k])
+                            else:
+                                results[(r, k)] = ("exc", e)
+                                LOG.append(["exc", f"r{r}", k, type(e).__name__])
                         # (a killed reader leaves via TaskDied, a BaseException: its operation never returns)
                 return body
 
